@@ -215,7 +215,8 @@ def step (st : St) (j : Json) : St × List String :=
     let tx := parseTx (jObj j "tx")
     let tx2 := parseTx (jObj j "tx2")
     let payload := match jStr j "payload" with | "ok" => some true | "bad" => some false | _ => none
-    let (c, rin, rout) := runBetween st tx tx2 { payload := payload } {}
+    let (c, rin, rout) := runBetween st tx tx2
+      { payload := payload, commitFails := jStr j "fail" != "none" && jStr j "fail" != "" } {}
     let tag := s!"between {resStr rin}/{resStr rout}"
     ({ st with s := c.m.s, metric := c.m.metric },
      [if jBool j "quiet" then tag else tag ++ " | " ++ observe c.m.s j])
